@@ -3,9 +3,14 @@ module corebgpverif
 go 1.23
 
 require (
-	github.com/jwhited/corebgp v0.0.0
+	github.com/jwhited/corebgp v0.0.0-00010101000000-000000000000
 	golang.org/x/tools v0.29.0
-	github.com/anishathalye/porcupine v1.3.0
+)
+
+require (
+	golang.org/x/mod v0.22.0 // indirect
+	golang.org/x/sync v0.10.0 // indirect
+	golang.org/x/sys v0.29.0 // indirect
 )
 
 replace github.com/jwhited/corebgp => /repo
